@@ -1,7 +1,9 @@
 #!/usr/bin/env python3
 """Check (and where stale, regenerate) the regression tapes replays/<ID>/fixed-*.json: each must
 FAIL when its fix commit is taken out of /repo's working tree and PASS on the current tree.
-/repo must be clean and no background run may be using it.   usage: regen_fixed.py [--check-only]"""
+/repo must be clean and no background run may be using it. While this tool runs, /repo's working tree
+has one fix reverted at a time: do NOT run ./check (or anything that builds from /repo) concurrently - it
+would report the reverted defect.   usage: regen_fixed.py [--check-only]"""
 import json, os, subprocess, sys, glob
 root = os.path.dirname(os.path.dirname(os.path.abspath(__file__)))
 def sh(cmd, **kw): return subprocess.run(cmd, shell=True, capture_output=True, text=True, **kw)
